@@ -50,6 +50,16 @@ func init() {
 		e.assume(Implies(Eq(v.Tup[1].Term, "nil_any"), Not(Eq(v.Tup[0].Term, "nil_any"))), "LabelSelectorAsSelector returns a selector or an error")
 		return v
 	}
+	// matchesAll(sel): the selector is labels.Everything()
+	specFuncs["matchesAll"] = func(e *Exec, env *Env, args []Val) (Val, error) {
+		e.declFun("sel_all", []string{"Any"}, "Bool")
+		return Val{T: tBool, Term: app("sel_all", args[0].Term)}, nil
+	}
+	// listerNs(l): the namespace a NamespaceLister is restricted to
+	specFuncs["listerNs"] = func(e *Exec, env *Env, args []Val) (Val, error) {
+		e.declFun("lister_ns", []string{"Any"}, "String")
+		return Val{T: tString, Term: app("lister_ns", args[0].Term)}, nil
+	}
 	specFuncs["matches"] = func(e *Exec, env *Env, args []Val) (Val, error) {
 		return Val{T: tBool, Term: e.selMatches(env.cur, args[0].Term, args[1])}, nil
 	}
